@@ -95,7 +95,8 @@ def run(F, R):
         # the lookup may sit in a helper spliced below the exchange function
         get_n = [n.idx for n in S.nodes if n.idx in S.live and smod.descends(n.ctx, cx) and n.term["k"] == "call" and lib.callee_is(n.term, "http::HeaderMap::<T>::get")]
         ne_n = [n.idx for n in nodes if n.term["k"] == "call" and n.term.get("callee") in ("std::cmp::PartialEq::ne", "std::cmp::PartialEq::eq") and FIELD in fmt_t(cx.bv.trace_op(n.term["args"][0])) + fmt_t(cx.bv.trace_op(n.term["args"][1]))]
-        st_n = [n.idx for n in nodes if n.term["k"] == "call" and (lib.callee_is(n.term, "http::StatusCode::is_success") or "StatusCode" in (n.term.get("callee") or ""))]
+        # .. and so may a status test (a send helper that looks at the status before handing the response back)
+        st_n = [n.idx for n in S.nodes if n.idx in S.live and smod.descends(n.ctx, cx) and n.term["k"] == "call" and not smod.is_logging_span(n.term["sp"]) and (lib.callee_is(n.term, "http::StatusCode::is_success") or "StatusCode" in (n.term.get("callee") or "") or lib.callee_is(n.term, "http::Response::<T>::status"))]
         ver_ok = [(a, b) for (a, b, nm) in sm.outcome_edges(S, "std::ops::ControlFlow", "Continue") if S.nodes[a].ctx is cx and lib.head_call(guards.switch_info(cx.bv, S.nodes[a].bi).term) == "cup_ecdsa::Cupv2RequestHandler::verify_response"]
         if R.floor("C07-R2", "header lookup / change test / status test", min(len(get_n), len(ne_n), len(st_n)), 1):
             r1 = reach_in(S, [cx.entry], cx, cut_nodes=get_n)
